@@ -181,13 +181,30 @@ PROPS = {
                      'get_all_phosphorylatable_sites and the two get_kappa_after_phosphorylation / get_full_phosphostatus_kappa_distribution forwarders: native check only'],
         design_ref='2 / C16',
     ),
+    'C15': dict(
+        level='proof',
+        functions=[SEQ + f for f in ('countPos', 'countNeg', 'countNeut', 'Fplus', 'Fminus', 'FCR', 'NCPR', 'mean_net_charge', 'FER', 'sigma', 'deltaForm', 'delta',
+                                     'deltaMax', 'kappa', 'Omega', 'Omega_seq', 'kappa_X', 'sequence_charge_decoration', 'phasePlotRegion', 'charge_at_pH',
+                                     'isoelectric_point', 'meanHydropathy', 'uverskyHydropathy', 'meanWWHydropathy', 'FPPII_chain', 'molecular_weight',
+                                     'fraction_disorder_promoting', 'amino_acid_fraction', 'linearDistOfNCPR', 'linearDistOfFCR', 'linearDistOfSigma',
+                                     'linearDistOfHydropathy', 'linearDenistyOfAAs', 'linearCompositions', 'get_reducedAlphabetSequence',
+                                     'get_phosphosites', 'get_phosphosequence', 'kappa_at_maxPhos', 'calculateKappaDistOfPhosphoStates')],
+        lemmas=['sum_ext', 'rmax_lower', 'count_partition', 'npos_nonneg', 'nneg_nonneg', 'nneut_nonneg'],
+        native='c15',
+        assumptions=['per-step argument: every read-only backend method m satisfies {INV} m {INV, result = F_m(seq, phosphosites, args)} with F_m not mentioning the delta-max cache, and the frame '
+                     'obligation that m writes nothing but dmax/seqDeltaMax (every other field is proved unchanged, including through nested objects). History independence follows by induction over the '
+                     'call sequence (standard meta-step, not mechanised; random call histories are checked natively)',
+                     'deltaMax is verified from both cache states (empty, filled) and returns the same value; the permutant-returning path and the HTML renderer are covered natively only',
+                     'shared default arguments: linearCompositions is verified from both states of its default group list (fresh, already filled by an earlier call)'],
+        design_ref='2 / C15',
+    ),
 }
 
 _BOUNDED_ONLY = ('deductive contracts for this property are not yet discharged in this build: the claim rests on the bounded native '
                  'contract check of the real API (bounds in evidence.coverage.bounded), which is never counted as proved')
 for _pid, _nat in [('C01', 'c01'), ('C03', 'c03'), ('C04', 'c04'), ('C05', 'c05'), ('C06', 'c06'), ('C07', 'c07'), ('C08', 'c08'),
                    ('C09', 'c09'), ('C10', 'c10'), ('C11', 'c11'), ('C12', 'c12'), ('C13', 'c13'), ('C14', 'c14'), ('C15', 'c15'),
-                   ('C16', 'c16'), ('C17', 'c17'), ('C19', 'c19'), ('C20', 'c20')]:
+                   ('C16', 'c16'), ('C17', 'c17'), ('C18', 'c18'), ('C19', 'c19'), ('C20', 'c20')]:
     PROPS.setdefault(_pid, dict(level='other', functions=[], lemmas=[], native=_nat, assumptions=[_BOUNDED_ONLY],
                                 explanation=_BOUNDED_ONLY, design_ref='2 / ' + _pid))
 
